@@ -239,7 +239,8 @@ def rule_scram(ctx):
     snonce = IDX(extra, "nonce")
     cb = ("m", extra, "get", (C("channel_binding"), C("")), ())
     cnonce = ATTR(P("self"), "_client_nonce")
-    auth_message = ("enc", "ascii", ("cat", C("n="), FMT(authid), C(",r="), FMT(cnonce), C(",r="), FMT(snonce), C(",s="), FMT(salt), C(",i="), FMT(iters),
+    # RFC 5802 section 3 / 5.1: the messages are UTF-8 (user names are SASLprep'ed Unicode, not necessarily ASCII)
+    auth_message = ("enc", "utf8", ("cat", C("n="), FMT(authid), C(",r="), FMT(cnonce), C(",r="), FMT(snonce), C(",s="), FMT(salt), C(",i="), FMT(iters),
                                      C(",c="), FMT(cb), C(",r="), FMT(snonce)))
     sp_argon = ("argon2", password, ("b64d", salt), iters, memory, C(1), C(32), ("g", "argon2.Type.ID"), C(0x13))
     sp_pbkdf2 = ("pbkdf2", "sha256", password, ("b64d", salt), iters, C(32))
